@@ -160,6 +160,18 @@ func c20Forms() []formCase {
 		add("struct-names", "struct-names/"+k, pre+inj("B", "B{}", "NewA, NewPA, wire.Struct(new(B), "+names[k]+")"))
 		add("fields-names", "fields-names/"+k, pre+inj("A", "A{}", "NewB, NewPA, wire.Value(A{X: 2}), wire.FieldsOf(new(B), "+names[k]+")")+"\n")
 	}
+	// ---- struct tags: any string is a legal tag
+	tags := map[string]string{
+		"unterminated-value": "\"wire:\\\"-\"", "no-quotes": "`wire:-`", "key-only": "`wire`", "empty-value": "`wire:\"\"`", "open-quote-only": "`wire:\"`",
+		"leading-space": "` wire:\"-\"`", "colon-only": "`:`", "escaped-quote-in-other-key": "`json:\"a\\\"b\" wire:\"-\"`", "tab-separated": "\"json:\\\"x\\\"\\twire:\\\"-\\\"\"",
+		"newline-in-tag": "\"wire:\\\"-\\\"\\n\"", "nul-in-tag": "\"wire:\\\"-\\x00\\\"\"", "very-long": "`" + strings.Repeat("k:\"v\" ", 200) + "wire:\"-\"`",
+	}
+	for _, k := range sortedStrKeys(tags) {
+		decl := "type Tagged struct {\n\tA A\n\tM map[string]int " + tags[k] + "\n}\n\nfunc NewM() map[string]int { return nil }\n\n"
+		add("struct-tags", "struct-tags/"+k+"/star", decl+inj("Tagged", "Tagged{}", "NewA, NewM, wire.Struct(new(Tagged), \"*\")"))
+		add("struct-tags", "struct-tags/"+k+"/named", decl+inj("Tagged", "Tagged{}", "NewA, NewM, wire.Struct(new(Tagged), \"A\", \"M\")"))
+		add("struct-tags", "struct-tags/"+k+"/fields", decl+"func NewTagged() Tagged { return Tagged{} }\n\n"+inj("map[string]int", "nil", "NewTagged, wire.FieldsOf(new(Tagged), \"M\")"))
+	}
 	// ---- FieldsOf arg0
 	fieldsArg0 := map[string]string{
 		"new": "new(B)", "new-ptr": "new(*B)", "addr-composite": "&B{}", "new-ptr-int": "new(*int)", "new-int": "new(int)",
